@@ -45,6 +45,63 @@ CHECKS = {
         "for real both with declared easy samples and with those samples materialised, and TLC "
         "validates the relation between the recorded probes incl. full and partial AUC.",
         NOTE, "DESIGN.md 5 (C09)"),
+    "C04": (TECH,
+        "TLC checks complements, range, NaN locus, nesting/mirroring of the fixed-point interval model "
+        "and scale invariance on every 2x2 matrix over a small value set; every matrix is evaluated by "
+        "metrics.* and ConfusionMatrix(binary=True) (int/float, shapes (), (n,), (a,b), scaled by 1/2, "
+        "1e-9, 4^10) and TLC validates recorded rationals and fixed-point limits against tables "
+        "generated from the Python standard library.",
+        NOTE + " z and sqrt are tabulated (1e-6); half-widths are decided to ~2e-6.", "DESIGN.md 5 (C04)"),
+    "C05": (TECH,
+        "TLC checks a matrix growing one weighted sample at a time (locality, population, one-vs-all "
+        "structure, permutation equivariance); every sample sequence is built by the real "
+        "ConfusionMatrix, re-entered as list/dict/DataFrame under a permutation, binarised, its "
+        "per-class metrics taken as array/dict/permuted/stacked, and TLC validates the record.",
+        NOTE, "DESIGN.md 5 (C05)"),
+    "C06": (TECH,
+        "TLC checks on every tie-free object that the crossing-point property is satisfiable and "
+        "that the as-coded EER (shortcut, sign, cap, exact root of the piecewise-linear difference "
+        "of the inverse functions) is admissible; eer() is run on the real object, an affine image "
+        "and the negated object, and TLC judges the recorded (t, e) with the matrix the same object "
+        "reports at t.",
+        NOTE, "DESIGN.md 5 (C06)"),
+    "C07": (TECH,
+        "TLC checks the trapezoid technique against the Mann-Whitney statistic (all ties) and the "
+        "exact step area (no cross-class ties) with additivity, bound, y-complement, x-mirror, axis "
+        "exchange; Scores.auc is called for every window of a cut set on every object and TLC "
+        "validates the recorded rationals.",
+        NOTE, "DESIGN.md 5 (C07)"),
+    "C11": ("TLA+ model with one action per RNG call (TLC exhaustive) + scripted-RNG replay of every "
+            "model run + TLC trace validation of seeded runs",
+        "Every RNG outcome of every sampling mode is explored by TLC on small sources; every finished "
+        "model run is replayed into the real code with numpy's global RNG functions scripted to TLC's "
+        "outcomes; seeded runs (all modes, smoothing, above the single-pass switch, histories of M "
+        "samples) are recorded through the same shim and validated by TLC: per-sample well-formedness "
+        "and an 8-sigma unbiasedness test decide, draw-by-draw conformance is reported as drift.",
+        NOTE + " Distributional claims rest on the structural model plus the aggregate test.",
+        "DESIGN.md 5 (C11)"),
+    "C12": ("TLA+ model (object machine + sampling machine, TLC exhaustive) + scripted-RNG replay + "
+            "simulated behaviours + TLC trace validation",
+        "TLC checks that labels stay attached through construction, swap and sampling and that "
+        "groups partition the data; every finished sampling run is replayed with a scripted RNG, "
+        "simulated interleavings of swap/__getitem__/group_cm are replayed on one object, random "
+        "labelled sets are sampled with seeds; TLC judges the recorded arrays, per-group matrices, "
+        "group metrics and samples.",
+        NOTE, "DESIGN.md 5 (C12)"),
+    "C13": (TECH,
+        "TLC checks the documented quantile/BC/BCa formulas (exact rationals, fixed point with "
+        "tabulated Phi/Phi^-1/sqrt) for ordering, range, nesting, NaN/order invariance and affine "
+        "equivariance; utils.bootstrap_ci is run on every replicate vector (NaNs, int/float, "
+        "variants) and TLC compares the recorded limits with the formulas.",
+        NOTE + " bc/bca limits are decided to 2e-4 x replicate range.", "DESIGN.md 5 (C13)"),
+    "C14": ("TLA+ program-counter model of the replicate loop (TLC exhaustive + -simulate) + replay "
+            "of simulated behaviours + TLC trace validation",
+        "TLC explores the loop machine (Start/Probe/Sample/Eval/Estimate/Assemble, histories of two "
+        "calls on one object); simulated behaviours are replayed with a scripted custom sampler; "
+        "built-in samplers are observed through a subclass under fixed seeds; TLC judges that the "
+        "rows are the metric of exactly the produced samples and the interval is the documented "
+        "formula on them.",
+        NOTE, "DESIGN.md 5 (C14)"),
 }
 
 NOT_YET = "check not built yet in this round (see DESIGN.md section 5 for the planned TLA+ model)"
